@@ -73,6 +73,7 @@ def run(ctx, modes, texts=None, tag="lower"):
             cases.append(r)
     model = _model(ctx, cases) if cases else {}
     streams, n_eq, n_ast, n_diag, n_pe, diffs, distinct = {}, 0, 0, 0, 0, [], set()
+    n_class_bad = n_chain = n_chain_ok = 0
     samples = []
     crlf = {}
     for r in cases:
@@ -93,6 +94,25 @@ def run(ctx, modes, texts=None, tag="lower"):
             ctx.report({"oracle": "lower-total", "kind": "ast::lower panics"},
                        "CST→AST lowering panics on a tree the tree builder produces (a missing child must be a diagnostic)",
                        {"id": cid, "panic": real, "src": src})
+        cls = r[7] if len(r) > 7 else "class=ok"
+        if cls != "class=ok":
+            n_class_bad += 1
+            kinds_c = sorted({x.split(":")[0] for x in cls[len("class="):].split(",")})
+            ctx.report({"oracle": "lower-classification", "kinds": kinds_c},
+                       "on the real lowered AST a bare name is classified against the lexical scope rules: a name the scope rules call a "
+                       "constructor of the file (no enclosing local binder of that spelling) must be lowered as EConstr, every other bare "
+                       "name as EPath",
+                       {"id": cid, "misclassified(kind:name@function)": cls[len("class="):], "src": src})
+        if stream == "chains":
+            n_chain += 1
+            exp = r[8] if len(r) > 8 else ""
+            if exp and exp not in real:
+                ctx.report({"oracle": "prefix-postfix-chain", "kind": "postfix chain after a prefix operator re-associated wrongly"},
+                           "a prefix operator applied to an atom followed by a chain of calls / field accesses / tuple projections must be "
+                           "read as the prefix operator applied to the whole chain (postfix binds tighter than prefix)",
+                           {"id": cid, "src": src, "expected_subtree": exp, "observed": real[:1500]})
+            elif exp:
+                n_chain_ok += 1
         m = model.get(cid)
         if not m:
             diffs.append(f"{cid}: no model output")
@@ -129,6 +149,8 @@ def run(ctx, modes, texts=None, tag="lower"):
         f"{tag}_diagnostic_lists_compared(real lowering failed)": n_diag, f"{tag}_texts_with_parse_errors(error-recovered trees)": n_pe,
         f"{tag}_streams": streams, f"{tag}_distinct_nontrivial_trees": len(distinct),
         f"{tag}_node_kinds_exercised": len(node_kinds), f"{tag}_node_kinds": {k: kinds[k] for k in node_kinds},
+        f"{tag}_classification_oracle(real AST vs scope rules)": {"asts_checked": n_ast, "misclassified": n_class_bad},
+        f"{tag}_prefix_postfix_chains": {"programs": n_chain, "read_as_expected": n_chain_ok},
         f"{tag}_crlf_pairs": len(crlf), f"{tag}_crlf_pairs_equal": n_crlf_ok,
         f"{tag}_samples": samples,
         f"{tag}_rule": "one text = one source file parsed by the real parser; the real rowan tree (every node and token) is lowered by "
